@@ -84,6 +84,23 @@ def wire (cmd : String) (args : List String) : Option String :=
       some (model ++ " ## ok " ++ showBytes init ++ " ok " ++ showBytes (Spec.encode false NOTAG (.rread (fill.take n.toNat))))
     else if 11 + c.toNat > bl then some (model ++ " ## err packSmall")
     else some model
+  | "rread", [buflen, c, n, fill, tag] => do
+    -- the same with a tag set between InitRread and SetRreadCount
+    let bl ← nat? buflen
+    let c ← u32? c
+    let n ← u32? n
+    let fill ← bytes? fill
+    let tag ← u16? tag
+    let buf : Bytes := List.replicate bl 0xAA
+    let model : String :=
+      match Go.initRread c buf with
+      | .ok (bufA, _) => showR showBytes (Go.setRreadCount (Go.tagBuf (Go.fillData bufA c.toNat fill) tag) n)
+      | .err e => "err " ++ showE e
+      | .panic => "panic"
+    if 11 + c.toNat ≤ bl ∧ 11 + c.toNat < 4294967296 ∧ n.toNat ≤ c.toNat ∧ fill.length = c.toNat then
+      some (model ++ " ## ok " ++ showBytes (Spec.encode false tag (.rread (fill.take n.toNat))))
+    else if 11 + c.toNat > bl then some (model ++ " ## err packSmall")
+    else some model
   | "allocbound", [hex] => do
     let bs ← bytes? hex
     -- bytes the decoder may allocate for this input: 16 per walk element behind the guard
